@@ -299,7 +299,7 @@ theorem bhOk_preserved (H : Bytes → Bytes) : Preserved H (BhOk H) where
   onSend := fun s nx o => by
     unfold sendAll
     exact foldStore_bhOk H _ s o
-  onEnter := fun _ _ _ o => o
+  onEnter := fun _ _ _ _ _ o => o
   onEnter0 := fun _ o => o
   onOutput := fun _ _ o => o
 
@@ -379,7 +379,7 @@ theorem outBv_preserved (H : Bytes → Bytes) : Preserved H OutBv where
           obtain ⟨id, _, rfl⟩ := hm
           exact hx
         · simp at hm
-  onEnter := fun _ _ _ o => o
+  onEnter := fun _ _ _ _ _ o => o
   onEnter0 := fun _ o => o
   onOutput := fun _ _ o => o
 
